@@ -136,10 +136,18 @@ def work(args):
             if n < 1 and len(agg["samples"]) < 1:
                 agg["samples"].append(_sample(plan))
             if n < det_check:
-                agg["digests"][i] = r["digest"]
-                plan2, ctx2 = _one(wname, prop, master, i, tier)
-                if ctx2.digest() != r["digest"] or jdump(_strip(plan2)) != jdump(_strip(plan)):
-                    agg["nondeterministic"].append(i)
+                if getattr(wmod, "DETERMINISM", "full") == "plan":
+                    seed2 = run_seed(master, prop, wname, i)
+                    plan2 = wmod.generate(rng_for(seed2), (prop,), tier)
+                    plan2["run_seed"], plan2["index"] = seed2, i
+                    agg["digests"][i] = "plan:" + __import__("hashlib").sha256(jdump(plan).encode()).hexdigest()
+                    if jdump(plan2) != jdump(plan):
+                        agg["nondeterministic"].append(i)
+                else:
+                    agg["digests"][i] = r["digest"]
+                    plan2, ctx2 = _one(wname, prop, master, i, tier)
+                    if ctx2.digest() != r["digest"] or jdump(_strip(plan2)) != jdump(_strip(plan)):
+                        agg["nondeterministic"].append(i)
             for v in r["violations"]:
                 agg["violations"].append({"index": i, "seed": plan["run_seed"], "violation": v,
                                           "plan": plan})
@@ -256,7 +264,7 @@ def run_check(prop, tier, budget=None, max_runs=None, workers=None, quiet=False)
             first = True
             while True:
                 now = time.monotonic()
-                while len(pending) < workers * 2 and now < deadline and next_i < limit:
+                while len(pending) < workers * getattr(w, "PENDING_FACTOR", 2) and now < deadline and next_i < limit:
                     n = min(chunk, limit - next_i)
                     if first:
                         n = min(n, max(2, chunk // 4))
@@ -420,6 +428,7 @@ def write_replay(prop, item, mplan, mv, execs):
         "trace": ctx.trace[-200:] if ctx.trace else [],
         "repo_commit": boot.repo_commit(),
         "qstrader_file": boot.qstrader_file(),
+        "pythonhashseed": os.environ.get("PYTHONHASHSEED", "0"),
     }
     with open(path, "w") as f:
         f.write(json.dumps(json.loads(jdump(doc)), indent=1, sort_keys=True))
@@ -451,7 +460,8 @@ def replay(path, verbose=True):
 
 def replay_fresh(path):
     env = dict(os.environ)
-    env["PYTHONHASHSEED"] = "7"
+    # a fresh interpreter under the hash seed the violation was found with (C18 varies it on purpose)
+    env["PYTHONHASHSEED"] = os.environ.get("PYTHONHASHSEED", "0")
     out = subprocess.run([sys.executable, "-m", "qsim.cli", "replay", path], cwd=boot.VERIF_DIR, env=env,
                          capture_output=True, text=True, timeout=600)
     return out.returncode == 1 and "digest_matches=True" in out.stdout
